@@ -11,7 +11,7 @@ NOTES = {
  "C03": ("`range_eq_filter`, `rangeNum_eq_filter`, `rangeOpen_eq_filter`, `range_empty`: the pruned scan with per-entry depth equals the filter of the sorted content by the inclusive bounds, for both bound orders, equal bounds, open end, empty tree; `C03Raw.raw_range_after_history`: `rangeScan` over raw node records (per-class loops, raw header) is that filter after any history; `C03Loops.longestCommonPrefix_spec`: the regenerated Go `longestCommonPrefix` is the model's `lcpLen`",
          "bounds carved out by the property (NaN, (-0,+0), empty end with start above the maximum) are not generated; collation trees excluded", "DESIGN §5 C03"),
  "C04": ("`prefix_eq_filter` via `lcp_spec` (the subtree selected by the descent contains every key starting with p), `prefixColl_eq_filter`; `C04Raw.raw_prefix_after_history`: `lowestCommonParent` through `Raw.find` + `filter` over raw node records is that filter after any history; `C04Loops.prefixMismatch_spec`: the regenerated Go `prefixMismatch` is the model's for every prefix argument", "collation Prefix (as repaired) filters the whole tree", "DESIGN §5 C04"),
- "C05": ("`minimum_eq_head`, `maximum_eq_last`, `bottomK_eq_take`, `topK_eq_take_reverse` for every n; `C05Raw.minimum_is_least` / `maximum_is_greatest`: the per-class walks of minimum()/maximum() over raw nodes (children[0], children[childrenLen-1], the node48/node256 scans) reach the least / greatest stored key; `C05RawSeq.raw_topK_bottomK_after_history`: TopK/BottomK through the raw `backward`/`all` loops", "same tie as C02; the real minimum()/maximum() are also followed node by node in the bare-node correspondence", "DESIGN §5 C05, §10.2"),
+ "C05": ("`minimum_eq_head`, `maximum_eq_last`, `bottomK_eq_take`, `topK_eq_take_reverse` for every n; `C05Raw.minimum_is_least` / `maximum_is_greatest`: the per-class walks of minimum()/maximum() over raw nodes (children[0], children[childrenLen-1], the node48/node256 scans) reach the least / greatest stored key; `C05RawSeq.raw_topK_bottomK_after_history`: TopK/BottomK through the raw `backward`/`all` loops; `C05NodeOps.go_minimum_step_is_first_entry` / `go_maximum_step_is_last_entry`: the switch of tree.go's `minimum()`/`maximum()`, regenerated from the source on every run (`Gen/NodeOps.lean`: `children[0]`, `children[childrenLen-1]` on a uint8, the four scan loops), IS `Raw.minChild`/`Raw.maxChild` and continues with the child of the first / last table entry on every node satisfying the raw invariant", "same tie as C02; the loop head of the walk (nil test, leaf test) is mirrored by hand in `RT.minimum/maximum`; the real minimum()/maximum() are also followed node by node in the bare-node correspondence", "DESIGN §5 C05, §10.2"),
  "C06": ("`size_eq_card` (conjunct of the invariant preserved by every step), `insert_size`, `delete_size`", "same tie as C01", "DESIGN §5 C06"),
  "C07": ("`encU/encI/encF*_lt_iff`, `dec*_enc*`, `*_length`, `enc*_eq_iff`, `concat_lex` for all widths; float word lemmas at 32/64 bits by bv_decide; `C07Gen.*_ok`: the same statements (fixed length, round trip, order isomorphism, injectivity, NaN collapse) for the fourteen clauses of keys.go's Transform/Restore type switches as *regenerated on every run* into `Gen/Keys.lean` by the translator (so an edit of a constant, operator or branch of keys.go breaks a proof obligation whether or not a sample hits it)",
          "bv_decide native axioms for six float word lemmas (disclosed in evidence); trusted reading of package math on bit patterns (Model/Ieee.lean: which patterns IsInf/IsNaN/Inf/NaN denote) and of encoding/binary (big-endian), both cross-checked by the codec correspondence; IEEE order = declared rank is cross-checked against Go's own comparison operators; 64-bit codecs additionally tied on boundary/adjacent/random samples, 8-bit exhaustively (16-bit exhaustively in the thorough tier, also GOARCH=386)", "DESIGN §5 C07, §10.7"),
